@@ -14,6 +14,7 @@ mod ff;
 mod lattice;
 mod lru;
 mod order;
+mod poly;
 mod table;
 
 pub type CaseResult = Result<(), String>;
@@ -28,6 +29,7 @@ pub fn run_case(c: &Value) -> CaseResult {
         "cnf_eval" | "pm_ops" => cnf::run(c),
         "order_perm" => order::run(c),
         "lru_seq" => lru::run(c),
+        "poly_ops" => poly::run(c),
         "lat_eu" | "lat_real" | "lat_bool" => lattice::run(c),
         "compile_expr" | "compile_cnf" => compile::run(c),
         _ => Err(format!("unknown case kind {kind}")),
@@ -80,6 +82,7 @@ fn main() {
                 "cnf" => cnf::candidates(seed),
                 "order" => order::candidates(seed),
                 "lru" => lru::candidates(seed),
+                "poly" => poly::candidates(seed),
                 "lattice" => lattice::candidates(seed),
                 "compile" => compile::candidates(seed),
                 _ => vec![],
